@@ -91,7 +91,7 @@ def main():
             rec["confirmed"] = bool(ok and d0 and d1 and d0.returncode == 0 and d1.returncode != 0)
             rec["checks"] = {}
             for c in checks:
-                e2 = dict(os.environ, VERIF_REPO=repo)
+                e2 = dict(os.environ, VERIF_REPO=repo, BCV_REPLAY_DIR=os.path.join(scratch, "replays"))
                 p = sh([os.path.join(HERE, "check"), c, "--tier", a.tier, "--no-evidence"], env=e2, timeout=6 * 3600)
                 viol = [ln for ln in p.stdout.splitlines() if ln.startswith("VIOLATION")]
                 mons = [ln.strip()[:200] for ln in p.stderr.splitlines() if ln.strip().startswith("[")][:4]
